@@ -69,3 +69,66 @@ func (t *Timer) Stop() bool {
 	t.f = true
 	return true
 }
+
+// Ticker replaces time.Ticker: firings are events on the virtual clock; a
+// firing that finds the channel full is dropped, as with the real one.
+type Ticker struct {
+	C       <-chan time.Time
+	ch      chan time.Time
+	d       time.Duration
+	ev      Event
+	stopped bool
+}
+
+//go:norace
+func NewTicker(d time.Duration) *Ticker {
+	if d <= 0 {
+		panic("non-positive interval for NewTicker")
+	}
+	ch := make(chan time.Time, 1)
+	t := &Ticker{C: ch, ch: ch, d: d}
+	t.arm()
+	Probe("ticker_started")
+	return t
+}
+
+//go:norace
+func (t *Ticker) arm() {
+	t.ev = After(t.d, func() {
+		if t.stopped {
+			return
+		}
+		select {
+		case t.ch <- NowNoTick():
+		default:
+		}
+		t.arm()
+	})
+	t.ev.e.periodic = true
+}
+
+//go:norace
+func (t *Ticker) Stop() {
+	t.stopped = true
+	t.ev.Cancel()
+}
+
+//go:norace
+func (t *Ticker) Reset(d time.Duration) {
+	if d <= 0 {
+		panic("non-positive interval for Ticker.Reset")
+	}
+	t.ev.Cancel()
+	t.d, t.stopped = d, false
+	t.arm()
+}
+
+// Tick replaces time.Tick.
+//
+//go:norace
+func Tick(d time.Duration) <-chan time.Time {
+	if d <= 0 {
+		return nil
+	}
+	return NewTicker(d).C
+}
